@@ -3,7 +3,7 @@
 # Applies /verif/seeded/<name>/patch.diff to /repo, runs the checks, and always reverts.
 name=$1; shift
 cd /verif || exit 2
-git -C /repo apply seeded/$name/patch.diff || { echo "patch does not apply"; exit 4; }
+git -C /repo apply /verif/seeded/$name/patch.diff || { echo "patch does not apply"; exit 4; }
 trap 'git -C /repo checkout -- .' EXIT INT TERM
 for p in "$@"; do
   ./check $p --tier ${TIER:-quick} > /dev/shm/runseed_$$.out 2>&1; rc=$?
